@@ -315,4 +315,7 @@ KNOWN = {
     and _has(case, lambda s: s["cls"] == "BarGraph" and any(len(b) > 1 and b[1] > 0 for b in s["data"])),
     "C01-trimmed-cursor": lambda sub, case, v: v.clause == "cursor-inside"
     and _has(case, lambda s: s["cls"] in ("Pile", "Overlay")),
+    # the horizontal counterpart: Padding(width='clip') cuts the canvas on the right, the cursor stays where it was
+    "C01-clipped-cursor": lambda sub, case, v: v.clause == "cursor-inside"
+    and _has(case, lambda s: s["cls"] == "Padding" and s["width"] == "clip"),
 }
